@@ -314,6 +314,8 @@ def canon_value(v) -> str:
 # --------------------------------------------------------------------------- tweezer AST -> Lang AST
 def tw_int(e):
     k = e[0]
+    if k == "ic":
+        return ("look", "intC", e[1])
     if k == "i":
         return ("lit", e[1])
     if k == "v":
@@ -322,6 +324,8 @@ def tw_int(e):
 
 
 def tw_float(e):
+    if e[0] == "fc":
+        return ("look", "floatC", e[1])
     if e[0] == "f":
         return ("lit", Fraction(e[1]))
     return ("prim", "mul", [("lit", Fraction(e[2])), tw_int(e[1])])
@@ -419,7 +423,9 @@ def default_move_spec():
     B = Grid.from_positions([20.0, 24.0], [1.0, 3.0])
     S = Grid.from_positions([-5.0, -4.0], [7.5])
     # "B" names a static trap zone AND (a different grid of the same shape) a special grid
-    layout = Layout({"A": A, "B": B}, {"A"}, {"A", "B"}, {"A"}, special_grid={"S": S, "B": B.shift(0.5, 0.25)})
+    # "traps" is also the name of the one zone of the library's stock `ArchSpec()` (another grid)
+    layout = Layout({"A": A, "B": B, "traps": Grid.from_positions([4.0, 6.0], [1.0, 5.0])}, {"A"}, {"A", "B"}, {"A"},
+                    special_grid={"S": S, "B": B.shift(0.5, 0.25)})
     # "n2" and "fh" exist in both constant tables, with different values
     return ArchSpec(layout=layout, float_constants={"f0": 0.0, "fh": 0.5, "f3": 3.0, "n2": 2.5},
                     int_constants={"n0": 0, "n1": 1, "n2": 2, "fh": 7})
@@ -433,7 +439,8 @@ def second_move_spec():
     A = Grid.from_positions([100.0, 104.0, 110.0], [-50.0, -45.0])
     B = Grid.from_positions([0.0, 1.0], [-1.0, 1.0])
     S = Grid.from_positions([5.0, 9.0], [0.5])
-    layout = Layout({"A": A, "B": B}, {"A"}, {"A", "B"}, {"A"}, special_grid={"S": S, "B": B.shift(-0.5, 2.0)})
+    layout = Layout({"A": A, "B": B, "traps": Grid.from_positions([-14.0, -12.0], [31.0, 35.0])}, {"A"}, {"A", "B"}, {"A"},
+                    special_grid={"S": S, "B": B.shift(-0.5, 2.0)})
     return ArchSpec(layout=layout, float_constants={"f0": 1.0, "fh": 1.5, "f3": 5.0, "n2": 0.5},
                     int_constants={"n0": 1, "n1": 2, "n2": 3, "fh": 4})
 
